@@ -52,7 +52,7 @@ def BufOK(b: "arr", s: "seq[int]", a: "int") -> "bool":
 @pure
 def DecPre(b: "arr", s: "seq[int]", a: "int") -> "bool":
     """reader state: s is the complete bit image of the byte string b, the cursor is a valid position"""
-    return Rep(b, s) and a >= 0 and len(s) == 8 * arr_len(b)
+    return Rep(b, s) and a >= 0 and len(s) == 8 * arr_len(b) and a <= len(s)
 
 
 @pure
